@@ -162,3 +162,47 @@ pub fn c06_separate_flags() {
     let q = board(wk, bk, &[a], t2, r2, e2, 0, 1);
     assert!(p.calculate_zobrist_hash() != q.calculate_zobrist_hash(), "C06.4 two positions differing in one flag have the same hash");
 }
+
+/// C06.2b: the from-scratch hashes include EVERY piece, whatever the multiset: the bitboard of one kind and
+/// colour is a fully symbolic u64 (0..62 pieces of that kind), the rest of the board is the two kings.
+/// Under Kani with indicator keys (probe index T* symbolic; by GF(2)-linearity this covers every key
+/// table): hash(board) = hash(kings only) ^ [T* names (kind, colour, s) and bit s is set].  Natively the
+/// real keys are XOR-ed over the set bits.
+pub fn c06_occ(k: u8, c: u8) {
+    let t = sym::u32();
+    sym::assume(t < 14 * 64);
+    #[cfg(kani)]
+    unsafe { T_STAR = t; }
+    let wk = sym::sq();
+    let bk = sym::sq();
+    sym::assume(wk != bk);
+    let bits = sym::u64();
+    sym::assume(bits & ((1u64 << wk) | (1u64 << bk)) == 0);
+    let (turn, r, ep) = flags();
+    cov!(bits.count_ones() >= 9, "nine or more pieces of one kind and colour");
+    let mut w = [0u64; 7];
+    let mut b = [0u64; 7];
+    w[6] = 1u64 << wk;
+    b[6] = 1u64 << bk;
+    let base = Bitboard { white: verif::player_state(w, r.1, r.0), black: verif::player_state(b, r.3, r.2), turn, en_passant_square_shift: ep, fullmove_clock: 1, halfmove_clock: 0 };
+    if c == 0 { w[k as usize] = bits; } else { b[k as usize] = bits; }
+    let full = Bitboard { white: verif::player_state(w, r.1, r.0), black: verif::player_state(b, r.3, r.2), turn, en_passant_square_shift: ep, fullmove_clock: 1, halfmove_clock: 0 };
+    #[cfg(kani)]
+    let delta: u64 = {
+        let row = (k as u32 + 7 * c as u32) * 64;
+        if t >= row && t < row + 64 && (bits >> (t - row)) & 1 == 1 { 1 } else { 0 }
+    };
+    #[cfg(not(kani))]
+    let delta: u64 = {
+        let _ = t;
+        sym::note("board", crate::native_util::describe(&full));
+        let mut d = 0u64;
+        for s in 0..64u32 {
+            if (bits >> s) & 1 == 1 { d ^= verif::zobrist_piece_key(k as u64, s, c as u32); }
+        }
+        d
+    };
+    assert!(full.calculate_zobrist_hash() == base.calculate_zobrist_hash() ^ delta, "C06.2 from-scratch position hash leaves out (or counts twice) a piece of a crowded bitboard");
+    let pdelta = if k == P { delta } else { 0 };
+    assert!(full.calculate_zobrist_pawn_hash() == base.calculate_zobrist_pawn_hash() ^ pdelta, "C06.2 from-scratch pawn hash leaves out a pawn / includes a non-pawn");
+}
